@@ -120,6 +120,9 @@ func c12Exec(co *caseOut, kind string, in c12Input) (c12Obs, bool) {
 			bad = fmt.Sprintf("script passes the static check but executes offset %d, which is not an instruction boundary", off)
 		}
 		check(fmt.Sprintf("before instruction #%d at offset %d (%s)", obs.Res.Steps, off, op))
+		if c12ClosesCycle(v, op) {
+			obs.EverCyc = true
+		}
 		obs.Res.Steps++
 	})
 	v.LoadScript(script)
